@@ -112,6 +112,7 @@ public:
     {
       _loop.detach();
     }
+    _loopId.store(std::thread::id{}, std::memory_order_release);
   }
 
   /// \brief Deferred self-destruction; see EngineBase. Called ONLY on the I/O
@@ -181,6 +182,8 @@ public:
     }
     _loop = std::thread([this]
     {
+        // Publish the I/O thread id before any callback can run on this thread.
+        _loopId.store(std::this_thread::get_id(), std::memory_order_release);
       sigset_t sigpipeSet;
       sigemptyset(&sigpipeSet);
       sigaddset(&sigpipeSet, SIGPIPE);
@@ -212,6 +215,7 @@ public:
     enqueue(Cmd::shutdown());
     if (_loop.joinable())
       _loop.join();
+    _loopId.store(std::thread::id{}, std::memory_order_release);
   }
 
   ListenResult addListener(const std::string &bind, std::uint16_t port, TlsMode tls) override
@@ -324,7 +328,7 @@ public:
   }
   bool close(SessionId sid) override { return enqueue(Cmd::close(sid)); }
   bool isRunning() const override { return _running.load(std::memory_order_acquire); }
-  std::thread::id getIoThreadId() const override { return _loop.get_id(); }
+  std::thread::id getIoThreadId() const override { return _loopId.load(std::memory_order_acquire); }
   TransportStats getStats() const override
   {
     TransportStats ts;
@@ -1747,6 +1751,11 @@ private:
   // without revisiting this invariant.
   int _epollFd{-1}, _eventFd{-1}, _timerFd{-1};
   std::thread _loop;
+  // Id of the I/O thread as getIoThreadId() reports it (default id when no loop
+  // thread is attached). Kept in an atomic because getIoThreadId() is called from
+  // arbitrary threads (the sync-operation guards in Transport) concurrently with
+  // start()/stop()/detachForTermination(), which assign/join/detach _loop.
+  std::atomic<std::thread::id> _loopId{};
   // Deferred self-destruct deleter (delete-this-at-thread-end). Written/read
   // ONLY on the I/O thread (set pre-detach, run post-loop()); no synchronization.
   std::function<void()> _selfDestruct;
